@@ -373,4 +373,51 @@ Definition oracle_queries (e : elf) : list (list Z * Z) :=
          [(skipn 12 raw, 0)]
        else [])) (e_secs e).
 
+(* ---------- the ELFFile OBJECT ----------
+   The only attribute of an ELFFile that get_dwarf_info / has_dwarf_info write is the cached
+   _section_name_map (filled on first use by _make_section_name_map); every DWARFInfo is built
+   afresh.  obj_state = that cache.  (An exception while the map is built cannot happen for a
+   file ELFFile() accepted: every Section object was constructed once already.) *)
+Definition obj_state := option (list (list Z * nat)).
+
+(* _make_section_name_map on an object *)
+Definition make_name_map_st (e : elf) (st : obj_state) : res (list (list Z * nat)) * obj_state :=
+  match st with
+  | Some m => (Ok m, st)
+  | None => match name_map e with
+            | Ok m => (Ok m, Some m)
+            | Err x => (Err x, None)
+            end
+  end.
+
+(* get_section_by_name reading a given (cached) map *)
+Definition get_section_by_name_m (e : elf) (m : list (list Z * nat)) (n : list Z) : res (option section) :=
+  match map_get m n with
+  | None => Ok None
+  | Some i =>
+      match nth_error (e_secs e) i with
+      | Some s => do sc <- make_section e s; Ok (Some sc)
+      | None => Err (EPy "TypeError")
+      end
+  end.
+
+(* one get_dwarf_info call on an object in state st *)
+Definition obj_get_dwarf_info (fuel : nat) (loader : option (list Z -> option (list Z))) (e : elf)
+           (st : obj_state) (relocate follow : bool) : res dwarfinfo * obj_state :=
+  let '(rm, st') := make_name_map_st e st in
+  (match rm with
+   | Ok _ => get_dwarf_info fuel loader e relocate follow
+   | Err x => Err x
+   end, st').
+
+(* a sequence of calls on one object *)
+Fixpoint obj_run (fuel : nat) (loader : option (list Z -> option (list Z))) (e : elf)
+         (st : obj_state) (calls : list (bool * bool)) : list (res dwarfinfo) :=
+  match calls with
+  | [] => []
+  | (relocate, follow) :: cs =>
+      let '(ans, st') := obj_get_dwarf_info fuel loader e st relocate follow in
+      ans :: obj_run fuel loader e st' cs
+  end.
+
 End Model.
